@@ -42,11 +42,12 @@ def run(idx: Index, rep: Report, tier: str):
     rep.explain("C20, two generator clauses: the quantum Fourier transform gate list folded for short registers and compared, as a matrix, with "
                 "the discrete Fourier transform in the stated bit order; the bitstring-to-phase conversion of phase estimation.")
     rep.trust("CPython ast", "sa.consteval folding subset", "reference gate matrices (sa/symx.py via sa/rules/numsem.py), numpy complex arithmetic")
-    rep.assume("registers longer than four qubits rely on the uniformity of the recursive generator",
-               "state initialisation, controlled time evolution and the success probability of phase estimation are not decided")
+    rep.assume("registers longer than four qubits (Fourier transform) / three qubits (state initialisation) rely on the uniformity of the recursive generators",
+               "standard phase estimation as a whole circuit and controlled time evolution of non-commuting Hamiltonians are not decided")
     check_qft(idx, rep, tier)
     check_phase_readout(idx, rep)
     check_iqpe_feedback(idx, rep, tier)
+    check_state_preparation(idx, rep, tier)
 
 
 def _dft_on(qubits: List[int], n_total: int, inverse: bool, swap: bool) -> np.ndarray:
@@ -228,3 +229,71 @@ def check_iqpe_feedback(idx: Index, rep: Report, tier: str):
 
 class _NotDeterministic(Exception):
     pass
+
+
+SVF = "tangelo/linq/helpers/circuits/statevector.py"
+
+
+def check_state_preparation(idx: Index, rep: Report, tier: str):
+    """StateVector folded as a class (with the repository's Circuit and Gate classes; numpy evaluates the angle arithmetic on the concrete amplitudes) for a
+    table of amplitude vectors on one to three qubits - dense and sparse, real, signed and complex, basis states - in both qubit orders: the unitary of the
+    initialising circuit, applied to |0...0> and multiplied by the returned phase, is the vector; the uncomputing circuit maps the vector to |0...0> up to the
+    returned phase.  ("lsq_first": qubit 0 is the most significant bit of the amplitude index; "msq_first": the least significant.)"""
+    import cmath
+    from ..consteval import FuncVal
+    from ..rules.circuitsem import module_resolver
+    rule = "K9.state-preparation"
+    cls = module_resolver(idx, SVF)("StateVector")
+    if cls is None:
+        raise AnalysisError("StateVector not resolvable")
+    f = idx.function(f"{SVF}::StateVector.uncomputing_circuit")
+
+    def folder():
+        fo = cs.make_folder(idx, SVF, ctors={"Gate": None})
+        fo.real_arrays = True
+        fo.env["np.pi"] = math.pi
+        return fo
+    s2, s3 = 1 / math.sqrt(2), 1 / math.sqrt(3)
+    vectors = [[0.6, 0.8], [0.6, -0.8j], [0, 1], [1, 0], [s2, s2 * 1j],
+               [1, 0, 1j, 0], [0.5, 0.5j, -0.5, 0.5], [0, 0, 0, 1], [0, 1, 0, 0], [s2, 0, 0, -s2], [0.5, 0.5, 0.5, 0.5], [s3, 0, s3 * 1j, -s3], [0, s2, s2 * cmath.exp(0.3j), 0],
+               [1, 0, 0, 0, 0, 0, 0, 1j], [0.5, 0, 0.5j, 0, -0.5, 0, 0, 0.5], [1, 1j, -1, -1j, 1, 1, 1, 1], [0, 0, 0, 0, 0, 1, 0, 0], [1, 0, 1j, 0, -1, 0, -1j, 0], [2, 1, 0, 1j, 0, 0, 3, -1]]
+    if tier == "thorough":
+        vectors += [[(0.3 + 0.1 * k) * cmath.exp(0.7j * k * k) for k in range(8)], [1 if k % 3 == 0 else 0 for k in range(8)], [(-1) ** k * (k + 1) for k in range(4)],
+                    [cmath.exp(1j * k) if k in (1, 6) else 0 for k in range(8)]]
+    n = 0
+    bad_i, bad_u = [], []
+    for vec in vectors:
+        v = np.array(vec, dtype=complex)
+        v = v / np.linalg.norm(v)
+        nq = int(round(math.log2(len(v))))
+        for order in ("msq_first", "lsq_first"):
+            tgt = v if order == "lsq_first" else v.reshape([2] * nq).transpose(list(range(nq))[::-1]).reshape(-1)
+            try:
+                sv = folder().instantiate(cls, [[complex(x) for x in v]], {"order": order})
+                ci, phi = folder().call_funcval(FuncVal(sv.cls_val.methods["initializing_circuit"], bound_self=sv, home=SVF), [], {"return_phase": True})
+                sv2 = folder().instantiate(cls, [[complex(x) for x in v]], {"order": order})
+                cu, phu = folder().call_funcval(FuncVal(sv2.cls_val.methods["uncomputing_circuit"], bound_self=sv2, home=SVF), [], {"return_phase": True})
+            except Undecidable as e:
+                raise AnalysisError(f"StateVector not foldable for {vec}: {e}")
+            except Raised as e:
+                bad_i.append(f"{_fmt(vec)} ({order}): raises {e.exc_type}")
+                continue
+            n += 1
+            out = numsem.circuit_unitary(ci.fields["_gates"], nq)[:, 0] * cmath.exp(1j * float(phi))
+            if float(np.max(np.abs(out - tgt))) > 1e-9:
+                bad_i.append(f"{_fmt(vec)} ({order}): prepares {_fmt(np.round(out, 4).tolist())}")
+            back = numsem.circuit_unitary(cu.fields["_gates"], nq).dot(tgt) * cmath.exp(1j * float(phu))
+            e0 = np.zeros(2 ** nq, dtype=complex)
+            e0[0] = 1
+            if float(np.max(np.abs(back - e0))) > 1e-9:
+                bad_u.append(f"{_fmt(vec)} ({order}): uncomputes to {_fmt(np.round(back, 4).tolist())}")
+    rep.decide(not bad_i, rule, f, f.node, text=f"initializing_circuit on {n} (vector, order) pairs: circuit |0..0> times the returned phase equals the vector",
+               what="the state-initialisation circuit prepares the given amplitude vector exactly once the returned global phase is applied, in either qubit order",
+               reason="; ".join(bad_i[:2]))
+    rep.decide(not bad_u, rule, f, f.node, text=f"uncomputing_circuit on {n} (vector, order) pairs: the vector is mapped to |0..0> times the returned phase",
+               what="the uncomputing circuit maps the vector back to |0...0> (up to the returned global phase)", reason="; ".join(bad_u[:2]))
+    rep.floor("state preparations folded", n, 30)
+
+
+def _fmt(v) -> str:
+    return "[" + ", ".join(f"{complex(x):.3g}" for x in v) + "]"
